@@ -88,6 +88,19 @@ CLAIMED = {
         note="csv formatting/parsing and the regex engine are library code; VCF reading is covered under C18",
         technique="contract-based: run-time contracts on generated tables through real file I/O (bounded stand-in)",
         design_ref="8 (C08)"),
+    "C09": dict(
+        category="other",
+        text="Run-time contracts (bounded stand-in) on the real do_coverage over synthetic coordinate-sorted BAMs written with "
+             "pysam (1..3 contigs, reads of 30..150 bases with soft clips, every excluded-flag combination, MAPQ 0..60, reads "
+             "straddling bin edges and contig ends) and BED files (3/4/6 columns, abutting, overlapping, zero-width, "
+             "off-contig-end bins, more than one 5000-line chunk incl. exact multiples): every bin's depth = aligned bases of "
+             "counted reads inside it / bin length, log2 = log2(depth) or -20, rows keep coordinates and names, pileup and count "
+             "agree, 1..3 processes agree; to_chunks partitions the non-comment lines into chunks of at most the chunk size.",
+        note="what samtools bedcov and pysam fetch count is C code outside any contract: the synthetic-BAM oracle is its only "
+             "check; reads carry no indels (the statement's condition for pileup = count)",
+        technique="contract-based: run-time contracts with an independent depth oracle over generated BAM/BED files (bounded "
+                  "stand-in)",
+        design_ref="8 (C09)"),
     "C10": dict(
         category="other",
         text="Frames: every contract's arguments are deep-compared before/after each call (run time) and, in the deductive "
